@@ -20,6 +20,23 @@ CHECKS['C10'] = dict(level='exploration', design='6/C10',
     technique='exhaustive enumeration of bounded strings per cleavage rule against an independent position-constraint enzyme model + property-based testing (Hypothesis) of the pool against a model digest over three construction paths',
     text='Rule semantics are compared exhaustively on all strings up to a bounded length over each rule\'s reduced alphabet (site iterator and with-range iterator against an independent model); canonical pools built on the fly, by generateIndex and by updateIndex for generated proteomes and settings must equal the model digest (I->L images, Met-removed forms, leading X, internal stop, cds_start_NF).',
     note='Exhaustive only for the bounded string domain stated in the evidence; enzyme tables transcribed by hand from ExPASy; mass via Bio.SeqUtils (shared).')
+CV_NOTE = ('Model semantics M1-M12 of DESIGN.md (vf/cvmodel.py, no moPepGen import); <= 9-10 usable records per backbone (2^n haplotypes), transcripts <= ~300 nt; strict domain (zero tolerance): 14 common cleavage rules without the trypsin exception, GENCODE-style UTRs, non-aggressive collapse settings; extended domain (thorough): all 35 rules, exception settings, ENSEMBL-style UTRs, aggressive collapse settings, where a discrepancy is accepted only with the signature of an open finding listed in known_findings.json.')
+CHECKS['C01'] = dict(level='exploration', design='6/C01',
+    technique='property-based testing (Hypothesis): definitional reference model (exhaustive haplotype enumeration -> translate -> digest) as oracle, must-set inclusion L <= FASTA, plus metamorphic relation over node-collapsing parameters',
+    text='For generated references and record sets of five families (small variants, multi-transcript, alternative splicing, fusion, circRNA) the definitional must-set L of variant peptides, computed by an independent model over all mutually compatible record subsets, must be contained in the callVariant FASTA, and the FASTA sequence set must not change under other node-collapsing parameters.',
+    note=CV_NOTE)
+CHECKS['C02'] = dict(level='exploration', design='6/C02',
+    technique='property-based testing (Hypothesis): per-peptide realizability against the model (header entry as witness first, full may-set enumeration as fall-back), subset relation between limited/retried and unlimited runs, fault injection of TimeoutError into the retry ladder',
+    text='Every sequence of every run (unlimited, with binding complexity limits, with aggressive and mild collapse settings, after 1-3 injected timeouts) must be a digestion product of some compatible haplotype of a backbone under the liberal reading of the model; limited/retried runs must be subsets of the unlimited run.',
+    note=CV_NOTE + ' Timeouts are injected (first k invocations of the per-transcript worker raise TimeoutError), threads=1.')
+CHECKS['C03'] = dict(level='exploration', design='6/C03',
+    technique='property-based testing (Hypothesis): every (peptide, header entry) pair re-derived by the reference model from exactly the named records; uniqueness invariant over the whole FASTA',
+    text='Each header entry is parsed with an independent grammar; its ids must exist for the backbone, be mutually compatible and, applied alone, reproduce the peptide as a digestion product (SECT/W2F/ORF forms only when named); entry strings must be unique. Known mislabel classes of the unchanged tree are accepted only with a structural signature.',
+    note=CV_NOTE)
+CHECKS['C04'] = dict(level='exploration', design='6/C04',
+    technique='property-based testing (Hypothesis): invariants over the written FASTA files and the peptide table of the three calling commands against a model-computed canonical pool',
+    text='For generated references/records and all cleavage settings the outputs of callVariant, callNovelORF and callAltTranslation are checked for canonical peptides (model pool incl. I->L), length/mass limits, alphabet, uniqueness, and the peptide table for pair equality with the FASTA and slice consistency.',
+    note='Canonical pool from vf/enz.py (validated against the tool by C10); crashes of callVariant are not judged here (C01).')
 NOT_YET = {}
 
 def main():
